@@ -7,6 +7,7 @@ correspondence: real src/common/hostlist.c (assertions + ASan/UBSan, linked into
 oracle:         real code vs the independent expanders: the AST-level expander of vlib/hostlist.py
                 and the string-level `pdshmodel hl spec` (Hostlist/Spec.lean), which must agree
 """
+import itertools
 import json
 import os
 
@@ -133,78 +134,78 @@ def run(ctx):
                    ">= 1 bracket group; distinct = distinct rendered text"}
     dist = {"wellformed": 0, "valid-from-malformed-stream": 0, "exhaustive": 0, "corpus": 0, "cli": 0, "nth": 0,
             "forked": 0, "hosts_compared": 0}
-    if ctx.replay:
-        rep = json.load(open(ctx.replay))
-        strings = [unhx(rep["case"]["expr_hex"].rstrip("."))]
-        cases = [(strings[0], None, "replay")]
-    else:
-        cases = []
+    gen = WFGen(rng)
+
+    def stream():
+        if ctx.replay:
+            rep = json.load(open(ctx.replay))
+            yield (unhx(rep["case"]["expr_hex"].rstrip(".")), None, "replay")
+            return
         for s in load_corpus():
-            cases.append((s, None, "corpus"))
-        dist["corpus"] = len(cases)
-        gen = WFGen(rng)
-        n = 2500 if ctx.quick() else 60000
+            dist["corpus"] += 1
+            yield (s, None, "corpus")
+        n = 2500 if ctx.quick() else 40000
         for _ in range(n):
             words, s = gen.expr()
-            cases.append((s, expand1(words), "wellformed"))
-        if rng.random() < 2:        # D18 boundary in the well-formed domain (any prefix/suffix text)
-            for k in (1022, 1023, 1024):
-                cases.append((b"a[1-2]," + b"w" * k, [b"a1", b"a2", b"w" * k], "wellformed"))
+            yield (s, expand1(words), "wellformed")
+        for k in (1022, 1023, 1024):      # D18 boundary in the well-formed domain (any prefix/suffix text)
+            yield (b"a[1-2]," + b"w" * k, [b"a1", b"a2", b"w" * k], "wellformed")
         dist["wellformed"] = n
         md = {}
         wf2 = WFGen(rng, max_hosts=300)
-        m = 1200 if ctx.quick() else 40000
-        for _ in range(m):
-            cases.append((gen_malformed(rng, wf2, md), None, "stream15"))
+        for _ in range(1200 if ctx.quick() else 20000):
+            yield (gen_malformed(rng, wf2, md), None, "stream15")
         if ctx.tier == "thorough":
             for s in exhaustive(b"a019[]-,", 6):
-                cases.append((s, None, "exhaustive"))
-    ok = hl.build()
-    if ok:
-        ctx.log("%d cases generated" % len(cases))
-        spec = hl.spec([c[0] for c in cases])
-        # texts outside C01's domain (the spec names a problem / a bound >= 2^64) are C15's business
-        keep = [i for i, sp in enumerate(spec) if cases[i][1] is not None or (sp.startswith("ok |"))]
-        dist["outside-domain-skipped"] = len(cases) - len(keep)
-        cases = [cases[i] for i in keep]
-        spec = [spec[i] for i in keep]
-        strings = [c[0] for c in cases]
-        ctx.log("spec done, %d cases in the domain" % len(cases))
-        impl, model = hl.probe_all(strings)
-        ctx.log("impl+model done (%d forked)" % hl.nfork)
+                yield (s, None, "exhaustive")
+
+    if hl.build():
         distinct = set()
-        for (s, exp, origin), sp, a, b in zip(cases, spec, impl, model):
-            v = parse_spec(sp)
-            if exp is not None:
-                # the two independent expanders must agree on generated well-formed text
-                if not v["ok"] or v["hosts1"] != exp or v["note64"]:
-                    ctx.disagreement("Lean string-level spec vs AST-level expander",
-                                     "expr %r: spec `%s`, AST expansion has %d hosts" % (s[:200], sp[:200], len(exp)),
-                                     {"expr_hex": hx(s[:4000])})
-                    continue
-            elif not v["ok"] or v["note64"]:
-                if not same_answer(a, b):
-                    ctx.disagreement("hl model vs hostlist.c (probe)", "expr %r: impl `%s` model `%s`" %
-                                     (s[:200], a[:300], b[:300]), {"expr_hex": hx(s[:4000])})
-                continue      # outside C01's domain (C15 judges it)
-            else:
-                exp = v["hosts1"]
-                if origin == "stream15":
-                    dist["valid-from-malformed-stream"] += 1
-                elif origin == "exhaustive":
-                    dist["exhaustive"] += 1
-            judge(ctx, s, exp, a, b, origin)
-            cov["evaluations"] += 1
-            dist["hosts_compared"] += len(exp)
-            if len(exp) >= 2 and b"[" in s:
-                distinct.add(s)
-                if len(cov["samples"]) < 4 and len(s) < 60 and origin == "wellformed":
-                    cov["samples"].append({"expr": s.decode("latin1"), "hosts": len(exp), "impl": a[:160]})
+        nth_sample = []
+        dist["outside-domain-skipped"] = 0
+        it = stream()
+        while True:
+            cases = list(itertools.islice(it, 25000))
+            if not cases:
+                break
+            spec = hl.spec([c[0] for c in cases])
+            # texts outside C01's domain (the spec names a problem / a bound >= 2^64) are C15's business
+            keep = [i for i, sp in enumerate(spec) if cases[i][1] is not None or (sp.startswith("ok |"))]
+            dist["outside-domain-skipped"] += len(cases) - len(keep)
+            cases = [cases[i] for i in keep]
+            spec = [spec[i] for i in keep]
+            ctx.log("chunk: spec done, %d cases in the domain" % len(cases))
+            impl, model = hl.probe_all([c[0] for c in cases])
+            ctx.log("chunk: impl+model done (%d forked so far)" % hl.nfork)
+            for (s, exp, origin), sp, a, b in zip(cases, spec, impl, model):
+                v = parse_spec(sp)
+                if exp is not None:
+                    # the two independent expanders must agree on generated well-formed text
+                    if not v["ok"] or v["hosts1"] != exp or v["note64"]:
+                        ctx.disagreement("Lean string-level spec vs AST-level expander",
+                                         "expr %r: spec `%s`, AST expansion has %d hosts" % (s[:200], sp[:200], len(exp)),
+                                         {"expr_hex": hx(s[:4000])})
+                        continue
+                    if len(nth_sample) < 4000:
+                        nth_sample.append((s, exp, origin))
+                else:
+                    exp = v["hosts1"]
+                    if origin == "stream15":
+                        dist["valid-from-malformed-stream"] += 1
+                    elif origin == "exhaustive":
+                        dist["exhaustive"] += 1
+                judge(ctx, s, exp, a, b, origin)
+                cov["evaluations"] += 1
+                dist["hosts_compared"] += len(exp)
+                if len(exp) >= 2 and b"[" in s:
+                    distinct.add(s)
+                    if len(cov["samples"]) < 4 and len(s) < 60 and origin == "wellformed":
+                        cov["samples"].append({"expr": s.decode("latin1"), "hosts": len(exp), "impl": a[:160]})
         cov["distinct_nontrivial"] = len(distinct)
         dist["forked"] = hl.nfork
         if not ctx.replay:
             dist["generator"] = gen.dist
-            nth_check(ctx, hl, [c for c in cases if c[2] == "wellformed"], dist)
+            nth_check(ctx, hl, nth_sample, dist)
             cli_check(ctx, hl, dist, cov)
     cov["distribution"] = dist
     cov["traces_validated_against_impl"] = cov["evaluations"]
